@@ -47,6 +47,17 @@ static inline uint64_t dmix(uint64_t x, uint64_t v)
 	return a + 0x9E3779B97F4A7C15ULL;
 }
 
+/* C07 at LP level: a recorded termination time names an event that is still in the LP's history and on whose state the predicate held;
+   the predicate of the interpreter application (count >= target) is monotone along a history, so it must hold on the current state too */
+static void check_termination(unsigned long k)
+{
+	for(uint64_t i = 0; i < global_config.lps; ++i) {
+		const struct lp_ctx *lp = &lps[i];
+		if(lp->termination_t >= 0.0 && lp->termination_t != SIMTIME_MAX && !app_can_end(i, lp->state_pointer))
+			printf("TERMBAD %lu %" PRIu64 " %" PRIu64 "\n", k, i, app_time_to_ticks(lp->termination_t));
+	}
+}
+
 static void dump_state(unsigned long k)
 {
 	if(!lpstate_f)
@@ -121,8 +132,10 @@ int main(int argc, char **argv)
 		char *tok[4];
 		int n = vh_split(line, tok, 4);
 		if(n < 1) continue;
-		if(nline)
+		if(nline) {
 			dump_state(nline);
+			check_termination(nline);
+		}
 		++nline;
 		char op = tok[0][0];
 		if(op == 'P') {
@@ -159,6 +172,7 @@ int main(int argc, char **argv)
 		}
 	}
 	dump_state(nline);
+	check_termination(nline);
 	if(lpstate_f)
 		fclose(lpstate_f);
 	VERIF_TRACE(VT_GVT, verif_bits(last_gvt), 0, 0, 0);
